@@ -547,8 +547,8 @@ func (r *Resolver) decodeBody(b []byte, c *schemagen.Comb, args []schemagen.Arg)
 				if len(b) == 0 && k < n && minSize(f.Type) > 0 {
 					return nil, b, ErrShort
 				}
-				if len(arr.Elems) > 1<<20 {
-					return nil, b, fmt.Errorf("array too long for the reference decoder")
+				if decodeBudget--; decodeBudget < 0 || len(arr.Elems) > 1<<20 {
+					return nil, b, ErrBudget
 				}
 				el := &Value{Kind: "struct", Fields: map[string]*Value{}}
 				for j, rf := range f.Type.Rep {
@@ -718,7 +718,14 @@ func (r *Resolver) EncodeTop(c *schemagen.Comb, v *Value) ([]byte, error) {
 }
 
 // DecodeTop reads what EncodeTop wrote.
+// ErrBudget: the input denotes more array elements (over all nesting levels, zero-width ones included) than the reference
+// decoder is willing to materialise; callers treat it as "not decided by the reference", never as a verdict.
+var ErrBudget = fmt.Errorf("value too large for the reference decoder")
+
+var decodeBudget int
+
 func (r *Resolver) DecodeTop(b []byte, c *schemagen.Comb) (*Value, []byte, error) {
+	decodeBudget = 2 << 20
 	if len(b) < 4 {
 		return nil, b, ErrShort
 	}
